@@ -317,6 +317,15 @@ func appendSnapshotVars(b []byte, s *slip.Scope) []byte {
 	})
 	b = append(b, '\n')
 	for _, vv := range va {
+		if vv.Value() == slip.Unbound {
+			// An exported symbol without a value, the defpackage form
+			// makes it. There is no value to save.
+			if len(vv.Doc) == 0 {
+				continue
+			}
+			b = appendDefVar(b, s, vv)
+			continue
+		}
 		if !isCorePackage(vv.Pkg) {
 			b = appendDefVar(b, s, vv)
 		}
